@@ -226,7 +226,7 @@ def finalize(agg):
         reasons.append("per-iteration hook fired only %d times" % st.get("iter_hooks", 0))
     if st.get("final_checks", 0) < 0.85 * st.get("runs", 1):
         reasons.append("end-of-run oracle ran on %d of %d runs" % (st.get("final_checks", 0), st.get("runs", 0)))
-    cov = dict(objfun_calls=int(st.get("objfun_calls", 0)), final_checks=int(st.get("final_checks", 0)),
+    cov = dict(evaluations=int(st.get("runs", 0)), objfun_calls=int(st.get("objfun_calls", 0)), final_checks=int(st.get("final_checks", 0)),
                iteration_hooks=int(st.get("iter_hooks", 0)), slot_checks=int(st.get("slot_checks", 0)),
                exit_restart_averaging_triples=triples,
                restarts_seen=dict(soft=int(st.get("soft_restarts", 0)), hard=int(st.get("hard_restarts", 0))),
